@@ -150,7 +150,19 @@ fn comment_file(lang: &str, rng: &mut Rng) -> B {
                 last_was_comment = true;
             }
             4 if block => {
-                if rng.chance(1, 2) {
+                if matches!(lang, "rust" | "scala" | "swift" | "dart") && rng.chance(1, 3) {
+                    // block comments nest in these languages: one, two or three comments inside a comment (a grammar may
+                    // report the inner ones as nodes of their own), all of it comment text
+                    b.nonprose("leader", &format!("{indent}/* "));
+                    { let k = rng.range(1, 3); b.prose_words(rng, k); }
+                    for _ in 0..rng.range(1, 3) {
+                        b.nonprose("leader", " /* ");
+                        { let k = rng.range(1, 2); b.prose_words(rng, k); }
+                        b.nonprose("leader", " */ ");
+                        { let k = rng.range(1, 2); b.prose_words(rng, k); }
+                    }
+                    b.nonprose("leader", " */\n");
+                } else if rng.chance(1, 2) {
                     b.nonprose("leader", &format!("{indent}/* "));
                     { let k = rng.range(2, 4); b.prose_words(rng, k); }
                     b.nonprose("leader", " */\n");
@@ -246,10 +258,14 @@ fn typst_file(rng: &mut Rng) -> B {
 
 fn lhs_file(rng: &mut Rng) -> B {
     let mut b = B::new();
+    // a file may begin with code: a bird track on its very first line
+    if rng.chance(1, 4) { let codez = b.forbid("codezzq"); b.nonprose("code", &format!("> {codez} = 0\n> main = {codez}\n\n")); }
     for _ in 0..rng.range(1, 4) {
         let fill = FILL[rng.below(FILL.len())];
         let codez = b.forbid("codezzq");
-        match rng.below(3) {
+        match rng.below(4) {
+            // Haskell with blank lines inside a code environment
+            3 => { b.prose_words(rng, 3); b.nonprose("ws", "\n\n"); b.nonprose("code", &format!("\\begin{{code}}\n{codez} :: Int\n{codez} = 1\n\nother {codez} :: Int\n\n\n{codez} = 2\n\\end{{code}}\n\n")); }
             0 => { b.prose_words(rng, 4); b.nonprose("ws", "\n\n"); b.nonprose("code", &format!("> {codez} = \"{fill}\"\n> main = {codez}\n\n")); }
             1 => { b.prose_words(rng, 3); b.nonprose("ws", "\n"); b.nonprose("code", &format!("\\begin{{code}}\n{codez} = \"{fill}\"\n\\end{{code}}\n")); }
             _ => { b.prose_words(rng, 3); b.nonprose("ws", "\n\n"); }
